@@ -525,6 +525,10 @@ def make_series(data=None, index=None, **kw):
         return SeriesRow(data.labels, data.vals)
     if isinstance(data, SeriesCol):
         return SeriesCol(data.lane, data.name)
+    if isinstance(data, values.RowView):
+        data = ConcArr(data.items())
+    if isinstance(data, ConcArr) and index is None:
+        return SeriesRow(list(range(len(data.data))), list(data.data))
     if isinstance(data, ConcArr) and index is not None:
         if len(index) != len(data.data):
             _raise('ValueError', 'Length of values (%d) does not match length of index (%d)' % (len(data.data), len(index)))
